@@ -19,7 +19,7 @@ LEVEL_TEXT = ('static analysis: (D1) every exclude file is subtracted through su
               'chromosomes; a minimum of None counts as 0; (D2b) get_regions interpreted on 275 literal FASTA texts -- every sequence over {A, N}'
               ' up to 6 bases at line widths 1-4 and unbroken, plus two- and three-record files with empty, all-N and description-bearing records'
               ' -- reports exactly the maximal non-N runs of each record; (D3) do_access runs scan -> (contig filter iff skip_noncanonical) -> '
-              'subtract each exclude file, whole, in order -> join with the given minimum gap, and the contig filter keeps exactly the names the '
+              'subtract each exclude file, whole, in order, each from the result of the previous subtraction -> join, of the table with all of them removed, with the given minimum gap, and the contig filter keeps exactly the names the '
               "package's contig rule calls canonical; (A run starting at offset 0 of a record is among D2b's texts; the former syntactic `is "
               'None` rule, D4, was retired as a text rule.) (D5) the `access` command line through the argparse model: every -x / --exclude file '
               'given (0..3 occurrences, both spellings), in order, and -s reach do_access; D3 also requires the exclude files to be read as BED '
@@ -267,6 +267,7 @@ MUTANTS = [
     dict(name="join before subtracting", file=_A, old="    access_regions = GA.from_rows(fa_regions)\n    for ex_fname in exclude_fnames:", new="    access_regions = GA.from_rows(join_regions(GA.from_rows(fa_regions), min_gap_size))\n    for ex_fname in exclude_fnames:"),
     dict(name="contig filter always on", file=_A, old="    if skip_noncanonical:\n", new="    if True:\n"),
     dict(name="contig filter inverted", file=_A, old="    return (tup for tup in region_tups if is_canonical_contig_name(tup[0]))", new="    return (tup for tup in region_tups if not is_canonical_contig_name(tup[0]))"),
+    dict(name="every exclude file subtracted from the unfiltered scan (only the last one counts)", file=_A, old="    access_regions = GA.from_rows(fa_regions)\n    for ex_fname in exclude_fnames:\n        excluded = tabio.read(ex_fname, \"bed3\")\n        access_regions = access_regions.subtract(excluded)", new="    all_regions = access_regions = GA.from_rows(fa_regions)\n    for ex_fname in exclude_fnames:\n        excluded = tabio.read(ex_fname, \"bed3\")\n        access_regions = all_regions.subtract(excluded)"),
     dict(name="only the first exclude file", file=_A, old="    for ex_fname in exclude_fnames:", new="    for ex_fname in exclude_fnames[:1]:"),
     dict(name="min gap not passed", file=_A, old="    return GA.from_rows(join_regions(access_regions, min_gap_size))", new="    return GA.from_rows(join_regions(access_regions, 0))"),
     dict(name="seeded C13a: truthiness of run_start at a header", file=_A, old="                # Emit the last chromosome's last run, if any\n                if run_start is not None:", new="                # Emit the last chromosome's last run, if any\n                if run_start:"),
